@@ -366,7 +366,7 @@ func main() {
 											}
 										}
 										if !local {
-											captured.add(where + ": " + src(fset, l) + " " + v.Tok.String())
+											captured.add(where + ": " + normSrc(fset, l, loc) + " " + v.Tok.String())
 										}
 									}
 								}
@@ -403,7 +403,7 @@ func main() {
 													}
 												}
 												if !local {
-													captured.add(where + ": " + src(fset, call.Fun) + "()")
+													captured.add(where + ": " + normSrc(fset, call.Fun, loc) + "()")
 												}
 											}
 										}
